@@ -96,7 +96,11 @@ def replay (h : Hist) (n : Nat) : Nat → Prog → List Ev → Outcome → Outco
         | .delete key k, .store e =>
           if e.op == "del" && e.key = key then replay h n fuel k rest o else mism
         | .origin m hd dl k, .call e =>
-          if m = e.method && Header.canon hd = Header.canon e.hdr && dl.isSome = e.deadline then
+          -- a deadline of the caller's own context (Cancel = "dl:<ns>") shows on every upstream request of the exchange
+          let callerDl := match h.reqs.find? (·.n = n) with
+            | some ri => ri.cancel.startsWith "dl:"
+            | none => false
+          if m = e.method && Header.canon hd = Header.canon e.hdr && (dl.isSome || callerDl) = e.deadline then
             let ans : OriginAns := match e.outcome, h.reply n e.k with
               | "resp", some rp => .resp rp.resp e.t1 (rp.bodyFail < 0 || rp.resp.body.isEmpty)
               | _, _ => .err e.t1
